@@ -10,10 +10,12 @@ import (
 
 	"free5gclib/milenage"
 	"free5gclib/nas"
+	"free5gclib/nas/nasConvert"
 	"free5gclib/nas/nasMessage"
 	"free5gclib/nas/nasTestpacket"
 	"free5gclib/nas/security"
 	"free5gclib/ngap"
+	"free5gclib/ngap/ngapConvert"
 	"free5gclib/openapi/models"
 
 	"tglib"
@@ -181,6 +183,18 @@ func init() {
 				return fmt.Sprintf("ok@%d", cut)
 			}
 			return fmt.Sprintf("%d:%v", cut, err)
+		}
+	}
+	// the identifier / address conversions, each UE with its own inputs
+	families["convert"] = func() job {
+		return func(g, i int) string {
+			amfid := fmt.Sprintf("%02x%02x%02x", byte(g*29+i), byte(i>>3), byte(g*7+i*3))
+			r, st, p := nasConvert.AmfIdToNas(amfid)
+			pl := nasConvert.PlmnIDToNas(models.PlmnId{Mcc: fmt.Sprintf("%03d", (g*111+i)%1000), Mnc: fmt.Sprintf("%02d", (g+i)%100)})
+			sn := nasConvert.SnssaiToNas(models.Snssai{Sst: int32((g + i) % 256), Sd: fmt.Sprintf("%06x", g*65536+i)})
+			t := ngapConvert.IPAddressToNgap(fmt.Sprintf("10.%d.%d.%d", g, i%256, (i>>8)%256), "")
+			b4, _ := ngapConvert.IPAddressToString(t)
+			return fmt.Sprintf("%d %d %d %x %x %x %s", r, st, p, pl, sn, t.Value.Bytes, b4)
 		}
 	}
 	// messages from a later release: the last information element carries an identifier this release does not define
